@@ -587,7 +587,8 @@ class TextNmea2000Gateway(AsyncIOClient):
             # end of stream in the middle of a line: the fragment is not a packet and must not be decoded as one
             raise ConnectionError("Connection closed by the gateway in the middle of a line")
         self.logger.debug(f"Received: {data.hex()}")
-        line = data.decode('utf-8', errors='ignore').strip()
+        # bytes that are not text are kept visible (U+FFFD): dropping them could turn a damaged line into a valid one
+        line = data.decode('utf-8', errors='replace').strip()
         try:
             if self.type == Type.ACTISENSE:
                 message = self.decoder.decode_actisense_string(line)
